@@ -1,51 +1,112 @@
 ---------------------------- MODULE HomeRelay ----------------------------
-(* C26: HomeRelayWatch.  RelayActor sets the URL; ActiveRelayActors update the
-   status through set_status, which (in the code) is get-then-set. *)
-EXTENDS Naturals, Sequences, FiniteSets, TLC
-CONSTANTS Urls, States, NoUrl, Atomic, MaxChanges
-VARIABLES home,      \* value of the watchable: NoUrl or <<url, state>>
-          chosen,    \* URL most recently chosen by the RelayActor (NoUrl if cleared)
+(* C26 -- the advertised home relay: iroh::socket::transports::relay::actor::HomeRelayWatch
+   (iroh/src/socket/transports/relay/actor.rs), a Watchable<Option<RelayStatus>> shared by the
+   RelayActor (which chooses the home relay) and one ActiveRelayActor per relay URL (which
+   report their connection state).
+
+   Processes and actions (one per call / critical section of the code):
+
+     RelayActor            SetHome(u)    on_network_change: my_relay.set(u, Connecting)
+                                         (only when the preferred relay differs from the current one)
+                           ClearHome     on_network_change: my_relay.clear()
+     ActiveRelayActor(u)   my_relay.set_status(u, s) -- called from run_once (Connecting,
+                           Connected), run (Disconnected{err}) and on SetHomeRelay(true):
+                             design required by C26 (Atomic = TRUE):
+                               SetStatusAtomic(u, s)   compare-and-set in one step
+                             the pinned code (Atomic = FALSE) is get-then-set:
+                               Read(u, s)    self.inner.get().url == Some(u)   -> continue to Write
+                               Skip(u, s)    self.inner.get().url != Some(u)   -> return
+                               Write(u)      self.inner.set(Some(RelayStatus::new(u, s)))
+                           named deviation "C26_set_status_not_atomic".
+
+   `chosen` (ghost) is the URL most recently chosen by the RelayActor, `src` (ghost) who wrote
+   the advertised value.  `hist` is the word of steps taken, printed by `Emit` for the harness
+   (harness/src/bin/vh_netrep.rs, c26) which forces each word on the real object with one real
+   thread per actor and a pause point between the read and the write. *)
+EXTENDS Naturals, Sequences, FiniteSets, TLC, Json
+CONSTANTS Urls,        \* relay URLs (strings)
+          States,      \* connection states an actor may report
+          NoUrl,       \* "none"
+          Atomic,      \* TRUE: the design C26 requires; FALSE: the code as written
+          MaxChanges,  \* bound on home relay changes
+          MaxStatus,   \* bound on set_status calls per actor
+          KeepHist     \* keep the word (generator) or not (model checking)
+VARIABLES home,      \* value of the watchable: [url, state] (url = NoUrl: None)
+          chosen,    \* ghost: URL most recently chosen by the RelayActor (NoUrl if cleared)
+          src,       \* ghost: who wrote `home`: "relay_actor" or the URL of an active actor
           nchanges,
-          pc,        \* per active actor: "idle" | "read"
-          seen,      \* what the active actor read
-          wantState  \* the state it is about to write
-vars == <<home, chosen, nchanges, pc, seen, wantState>>
+          pc,        \* per active actor: "idle" | "read" (between the get and the set)
+          want,      \* the state the actor is about to write
+          ncalls,    \* set_status calls per actor
+          hist
+vars == <<home, chosen, src, nchanges, pc, want, ncalls, hist>>
 
 HomeUrl == home.url
+None == [url |-> NoUrl, state |-> "none"]
 
-Init == /\ home = [url |-> NoUrl, state |-> "none"] /\ chosen = NoUrl /\ nchanges = 0
-        /\ pc = [u \in Urls |-> "idle"] /\ seen = [u \in Urls |-> NoUrl]
-        /\ wantState = [u \in Urls |-> "Connecting"]
+Log(op, u, s) == hist' = IF KeepHist THEN Append(hist, [op |-> op, url |-> u, state |-> s]) ELSE hist
 
-\* RelayActor::on_network_change
+Init == /\ home = None /\ chosen = NoUrl /\ src = "relay_actor" /\ nchanges = 0
+        /\ pc = [u \in Urls |-> "idle"] /\ want = [u \in Urls |-> "Connecting"]
+        /\ ncalls = [u \in Urls |-> 0] /\ hist = <<>>
+
+\* RelayActor::on_network_change with a new preferred relay
 SetHome(u) == /\ nchanges < MaxChanges /\ u # chosen
-              /\ home' = [url |-> u, state |-> "Connecting"] /\ chosen' = u /\ nchanges' = nchanges + 1
-              /\ UNCHANGED <<pc, seen, wantState>>
+              /\ home' = [url |-> u, state |-> "Connecting"] /\ chosen' = u /\ src' = "relay_actor"
+              /\ nchanges' = nchanges + 1
+              /\ UNCHANGED <<pc, want, ncalls>> /\ Log("set_home", u, "Connecting")
+\* RelayActor::on_network_change without a preferred relay
 ClearHome == /\ nchanges < MaxChanges /\ chosen # NoUrl
-             /\ home' = [url |-> NoUrl, state |-> "none"] /\ chosen' = NoUrl /\ nchanges' = nchanges + 1
-             /\ UNCHANGED <<pc, seen, wantState>>
+             /\ home' = None /\ chosen' = NoUrl /\ src' = "relay_actor" /\ nchanges' = nchanges + 1
+             /\ UNCHANGED <<pc, want, ncalls>> /\ Log("clear", NoUrl, "none")
 
-\* ActiveRelayActor(u)::set_status(u, s), atomic variant
-SetStatusAtomic(u, s) == /\ Atomic /\ pc[u] = "idle"
-                         /\ home' = IF HomeUrl = u THEN [url |-> u, state |-> s] ELSE home
-                         /\ UNCHANGED <<chosen, nchanges, pc, seen, wantState>>
-\* get-then-set variant (the code at the pinned commit)
-Read(u, s) == /\ ~Atomic /\ pc[u] = "idle"
-              /\ seen' = [seen EXCEPT ![u] = HomeUrl]
-              /\ wantState' = [wantState EXCEPT ![u] = s]
-              /\ pc' = [pc EXCEPT ![u] = "read"]
-              /\ UNCHANGED <<home, chosen, nchanges>>
+\* ActiveRelayActor(u): set_status(u, s), atomic design
+SetStatusAtomic(u, s) ==
+  /\ Atomic /\ pc[u] = "idle" /\ ncalls[u] < MaxStatus
+  /\ ncalls' = [ncalls EXCEPT ![u] = @ + 1]
+  /\ IF HomeUrl = u THEN home' = [url |-> u, state |-> s] /\ src' = u ELSE UNCHANGED <<home, src>>
+  /\ UNCHANGED <<chosen, nchanges, pc, want>> /\ Log("set_status", u, s)
+
+\* get-then-set (the code at the pinned commit)
+Read(u, s) == /\ ~Atomic /\ pc[u] = "idle" /\ ncalls[u] < MaxStatus /\ HomeUrl = u
+              /\ ncalls' = [ncalls EXCEPT ![u] = @ + 1]
+              /\ want' = [want EXCEPT ![u] = s] /\ pc' = [pc EXCEPT ![u] = "read"]
+              /\ UNCHANGED <<home, chosen, src, nchanges>> /\ Log("read", u, s)
+Skip(u, s) == /\ ~Atomic /\ pc[u] = "idle" /\ ncalls[u] < MaxStatus /\ HomeUrl # u
+              /\ ncalls' = [ncalls EXCEPT ![u] = @ + 1]
+              /\ UNCHANGED <<home, chosen, src, nchanges, pc, want>> /\ Log("skip", u, s)
 Write(u) == /\ pc[u] = "read"
-            /\ home' = IF seen[u] = u THEN [url |-> u, state |-> wantState[u]] ELSE home
+            /\ home' = [url |-> u, state |-> want[u]] /\ src' = u
             /\ pc' = [pc EXCEPT ![u] = "idle"]
-            /\ UNCHANGED <<chosen, nchanges, seen, wantState>>
+            /\ UNCHANGED <<chosen, nchanges, want, ncalls>> /\ Log("write", u, want[u])
 
-Next == \/ \E u \in Urls : SetHome(u)
-        \/ ClearHome
-        \/ \E u \in Urls, s \in States : SetStatusAtomic(u, s) \/ Read(u, s)
-        \/ \E u \in Urls : Write(u)
-Spec == Init /\ [][Next]_vars
+\* two next-state relations (plain disjunctions, so that TLC reports coverage per action)
+NextAtomic == \/ \E u \in Urls : SetHome(u)
+              \/ ClearHome
+              \/ \E u \in Urls, s \in States : SetStatusAtomic(u, s)
+NextCode   == \/ \E u \in Urls : SetHome(u)
+              \/ ClearHome
+              \/ \E u \in Urls, s \in States : Read(u, s)
+              \/ \E u \in Urls, s \in States : Skip(u, s)
+              \/ \E u \in Urls : Write(u)
+SpecAtomic == Init /\ [][NextAtomic]_vars      \* use with Atomic = TRUE
+SpecCode   == Init /\ [][NextCode]_vars        \* use with Atomic = FALSE
 
-\* C26: the advertised home relay is always the one most recently chosen
+---------------------------------------------------------------------------
+(* C26 *)
+\* the advertised home relay is always the relay most recently chosen
 HomeIsChosen == HomeUrl = chosen
+\* whatever is advertised was written by the RelayActor or by the actor of the chosen relay
+WrittenByChosen == src \in {"relay_actor", chosen}
+\* a demoted relay connection can never make its URL or status the advertised one again:
+\* a step of an actor whose relay is not the chosen one leaves the advertised value alone
+DemotedNeverVisible ==
+  [][~\E u \in Urls : u # chosen /\ src' = u /\ (src # u \/ home' # home)]_vars
+TypeOK == /\ home.url \in Urls \cup {NoUrl} /\ chosen \in Urls \cup {NoUrl}
+          /\ pc \in [Urls -> {"idle", "read"}]
+
+\* word generator: complete words only (no set_status call in flight)
+Quiescent == \A u \in Urls : pc[u] = "idle"
+Emit == (KeepHist /\ Quiescent /\ hist # <<>>) =>
+          PrintT(<<"REPLAY", ToJson([word |-> hist, final |-> home, chosen |-> chosen])>>)
 =============================================================================
